@@ -107,6 +107,30 @@ def handleTap (tx : Tx) (spent : List TxOut) (idx : Nat) (ht : UInt32) (annex : 
     showOut (Model.calcTaprootSignatureHashRaw sha sh ht tx idx fetch
       (Model.mkOpts sha annex (ext.map (fun e => (e.leafHash, e.codeSepPos)))))
 
+/-- caller options of the exported taproot entry points, applied in order over the defaults:
+`A.<annex>` = WithAnnex, `B.<pos>.<leafhash>` = WithBaseTapscriptVersion -/
+def applyOpts : List String → Option Bytes × Option Spec.TapExt → Option (Option Bytes × Option Spec.TapExt)
+  | [], st => some st
+  | o :: rest, (annex, ext) =>
+    match o.splitOn "." with
+    | ["A", a] => do
+      let a ← hexToList? a
+      applyOpts rest (some a, ext)
+    | ["B", pos, lh] => do
+      let pos ← u32? pos
+      let lh ← hexToList? lh
+      applyOpts rest (annex, some ⟨lh, 0, pos⟩)
+    | _ => none
+
+/-- exported CalcTaprootSignatureHash (leaf `x`) / CalcTapscriptSignaturehash with a supplied (`c`)
+or nil (`n`) midstate and any caller option list -/
+def handleTapOpt (tx : Tx) (spent : List TxOut) (idx : Nat) (ht : UInt32) (cache : String)
+    (annex : Option Bytes) (ext : Option Spec.TapExt) : String :=
+  if cache == "n" then
+    showOut (Model.calcTaprootSignatureHashRawNil sha ht tx idx (mkFetch tx spent)
+      (Model.mkOpts sha annex (ext.map (fun e => (e.leafHash, e.codeSepPos)))))
+  else handleTap tx spent idx ht annex ext
+
 def annex? (s : String) : Option (Option Bytes) :=
   if s == "x" then some none else (hexToList? s).map some
 
@@ -217,6 +241,30 @@ def handle : List String → String
             (some ⟨Spec.tapLeafHash sha (UInt8.ofNat v) sc, 0, Spec.BLANK_CODESEP⟩)
         | _, _ => "bad-op"
       | _ => "bad-op"
+    | _, _, _, _, _ => "bad-op"
+  | ["tapopt", tx, sp, idx, ht, cache, _fetcher, leaf, opts] =>
+    match tx? tx, spent? sp, idx.toNat?, u32? ht with
+    | some tx, some sp, some idx, some ht =>
+      if sp.length ≠ tx.ins.length then "bad-op" else
+      if leaf == "x" then handleTapOpt tx sp idx ht cache none none else
+      match leaf.splitOn ":" with
+      | [v, sc] =>
+        match v.toNat?, hexToList? sc with
+        | some v, some sc =>
+          if v ≥ 256 then "bad-op" else
+          let dflt : Option Bytes × Option Spec.TapExt :=
+            (none, some ⟨Spec.tapLeafHash sha (UInt8.ofNat v) sc, 0, Spec.BLANK_CODESEP⟩)
+          match applyOpts (if opts == "-" then [] else opts.splitOn ",") dflt with
+          | some (annex, ext) => handleTapOpt tx sp idx ht cache annex ext
+          | none => "bad-op"
+        | _, _ => "bad-op"
+      | _ => "bad-op"
+    | _, _, _, _ => "bad-op"
+  | ["witapinil", tx, idx, ht, sub, amt] =>
+    match tx? tx, idx.toNat?, u32? ht, hexToList? sub, i64? amt with
+    | some tx, some idx, some ht, some sub, some amt =>
+      if !parses sub then "err" else
+      showOut (Model.calcWitnessSignatureHashRawNil sha sub ht tx idx amt)
     | _, _, _, _, _ => "bad-op"
   | ["witnil", tx, idx, ht, sub, amt] =>
     match tx? tx, idx.toNat?, u32? ht, hexToList? sub, i64? amt with
